@@ -26,6 +26,7 @@
 #include <unistd.h>
 #include <sys/wait.h>
 #include <signal.h>
+#include <sys/resource.h>
 
 // const probes of the RNS systems (their conversion members are not const; the accessors are, and fill caches lazily)
 template <class R> static void c18_pr_intrns_const(const R& rns, Sink& s) {
@@ -246,6 +247,9 @@ int main(int argc, char** argv) {
     bool nofork = getenv("C16_NOFORK") != 0;
     // a child that does not finish in time (loaded machine, sanitizer) is reported as "T timeout": inconclusive, never a crash
     unsigned limit = getenv("C18_ALARM") ? (unsigned)atoi(getenv("C18_ALARM")) : 600;
+    // CPU-time watchdog (load independent): a request whose threads together burn more than this many CPU seconds does not return
+    // (a spinning thread, a livelock): reported as "C cpu-limit", which the check re-runs alone with a larger budget before it reports it
+    unsigned cpu = getenv("C18_CPU") ? (unsigned)atoi(getenv("C18_CPU")) : 300;
     while (std::getline(std::cin, line)) {
         if (line.empty()) continue;
         std::istringstream is(line); std::string cls; int P = 0, T = 2, iters = 1;
@@ -254,9 +258,11 @@ int main(int argc, char** argv) {
         if (nofork) { c18_run_case(cls, P, T, iters, nocopy); fflush(stdout); continue; }
         fflush(stdout);
         pid_t pid = fork();
-        if (pid == 0) { alarm(limit); c18_run_case(cls, P, T, iters, nocopy); fflush(stdout); fflush(stderr); _exit(0); }
+        if (pid == 0) { struct rlimit rl; rl.rlim_cur = cpu; rl.rlim_max = cpu + 5; setrlimit(RLIMIT_CPU, &rl);
+                        alarm(limit); c18_run_case(cls, P, T, iters, nocopy); fflush(stdout); fflush(stderr); _exit(0); }
         int st = 0; waitpid(pid, &st, 0);
         if (WIFSIGNALED(st) && WTERMSIG(st) == SIGALRM) printf("%s %d %d T timeout\n", cls.c_str(), P, T);
+        else if (WIFSIGNALED(st) && (WTERMSIG(st) == SIGXCPU || WTERMSIG(st) == SIGKILL)) printf("%s %d %d C cpu-limit-%us\n", cls.c_str(), P, T, cpu);
         else if (WIFSIGNALED(st)) printf("%s %d %d X signal-%d\n", cls.c_str(), P, T, WTERMSIG(st));
         else if (WEXITSTATUS(st) != 0) printf("%s %d %d X exit-%d\n", cls.c_str(), P, T, WEXITSTATUS(st));
         fflush(stdout);
